@@ -26,7 +26,7 @@ SPEC = {
     "assumptions": ["isomorphism oracle: brute-force canonical form n<=8, igraph VF2 above (cross-checked with networkx VF2 and canonical form on small cases each run)"],
     "exhaustive_note": "all labelled simple graphs on n<=4 (quick) / n<=5 (thorough) vertices x 3^n colourings from {C, 13C, C radical}; thorough additionally all 32 768 labelled graphs on 6 carbon atoms",
     "monitors_required": ["c02_partition_compare", "c02_near_miss_pairs", "c02_equal_string_groups", "oracle_selftest"],
-    "required_obs": {"quick": ["route/direct", "route/v3000", "route/v2000", "cov_label_removed_pair_nonisomorphic", "cov_wl_equivalent_nonisomorphic_pair", "cov_label_moved_pair_nonisomorphic", "cov_cfi_pair", "cov_switch_pair_nonisomorphic", "cov_massrad_pair"]},
+    "required_obs": {"quick": ["cov_object_history_pair", "route/direct", "route/v3000", "route/v2000", "cov_label_removed_pair_nonisomorphic", "cov_wl_equivalent_nonisomorphic_pair", "cov_label_moved_pair_nonisomorphic", "cov_cfi_pair", "cov_switch_pair_nonisomorphic", "cov_massrad_pair"]},
     "watchdog_s": {"quick": 900, "thorough": 5400},
 }
 PLAN = {
@@ -172,6 +172,36 @@ def run(ctx):
             if name.startswith("cfi-"):
                 ctx.count("cov_cfi_pair")
             ctx.count("cov_wl_equivalent_nonisomorphic_pair")
+    # object histories: the SAME graph object is identified, edited in place into a different molecule (a bond removed / an isotope label
+    # added) and identified again - the two molecules differ, so must the strings
+    for k in range(common.share(ctx, plan["pairs"] // 8)):
+        base = G.random_organic(rng, 3, 14)
+        if not base.bonds:
+            continue
+        g = bridge.graph_direct(base, tag=False)
+        try:
+            s1 = pipeline(g)
+            u, v = rng.choice(sorted(g.edges()))
+            if rng.random() < 0.5:
+                g.remove_edge(u, v)
+                what = "bond removed in place"
+            else:
+                d = g.nodes[u]
+                d["mass"] = (d.get("mass") or 0) + 1
+                ic = d.get("invariant_code")
+                if isinstance(ic, tuple) and len(ic) == 3:
+                    d["invariant_code"] = (ic[0], d["mass"], ic[2])
+                what = "isotope label changed in place"
+            s2 = pipeline(g)
+        except PipelineFailed as e:
+            ctx.hard_inconclusive.append(f"pipeline raised in an object history: {e}"[:300])
+            continue
+        ctx.evaluations += 2
+        ctx.mon("c02_near_miss_pairs")
+        ctx.count("cov_object_history_pair")
+        if s1 == s2:
+            ctx.violation("trace:object-history", {"what": "one graph object edited in place into a different molecule keeps its TUCAN string", "edit": what, "string": s1[:300],
+                                                   "molecule_before": base.to_json()}, {"kind": "history", "mol": base.to_json(), "edit": what})
     for k in range(common.share(ctx, plan["pairs"])):
         base = G.symmetric(rng) if rng.random() < 0.5 else G.random_organic(rng, 3, 14)
         if not any(a.mass or a.rad for a in base.atoms):
@@ -242,6 +272,17 @@ def post_merge(res, tier, seed, repo, work):
 def replay(ctx, w):
     bridge.import_tucan()
     case = w["case"]
+    if case["kind"] == "history":
+        base = Mol.from_json(case["mol"])
+        g = bridge.graph_direct(base, tag=False)
+        s1 = pipeline(g)
+        u, v = sorted(g.edges())[0]
+        g.remove_edge(u, v)
+        s2 = pipeline(g)
+        ctx.evaluations += 2
+        if s1 == s2:
+            ctx.violation("trace:object-history", {"what": "graph object edited in place keeps its string", "string": s1[:300]}, case)
+        return
     if case["kind"] == "pair":
         compare_pair(ctx, case.get("pairkind", "pair"), Mol.from_json(case["a"]), Mol.from_json(case["b"]), random.Random(0))
     elif case["kind"] == "group":
